@@ -86,8 +86,14 @@ var c14Codec = probe.Define("C14", "codec", func(t *rapid.T) c14In {
 	if e.Kind == model.EAka {
 		// build through the API in the given call order
 		ak := eap.NewEapAkaPrime(eap.EapAkaSubtype(e.Sub))
+		if e.Sub == 0 && e.Identifier%2 == 1 {
+			ak = new(eap.EapAkaPrime) // the zero value: a packet of subtype 0 without attributes, made usable by the setter
+		}
 		for si, s := range in.Sets {
 			v := append([]byte{}, s.Value...)
+			if len(v) == 0 && e.Identifier%2 == 0 {
+				v = nil // a value of no octets, as nil and as an empty slice
+			}
 			if err := probe.Try(func() error { return ak.SetAttr(eap.EapAkaPrimeAttrType(s.Type), v) }); err != nil {
 				return probe.Fail("SetAttr(%d, %d octets) refused a legal value: %v", s.Type, len(s.Value), err)
 			}
@@ -139,6 +145,25 @@ var c14Codec = probe.Define("C14", "codec", func(t *rapid.T) c14In {
 		if le, err = bridge.ToLibEAP(e); err != nil {
 			return probe.Fail("building the EAP packet: %v", err)
 		}
+	}
+	// the packet is logged (as a whole and part by part), and attributes it does not carry are asked for (errors, nothing
+	// else): looking at a packet does not change it
+	if err := probe.Try(func() error {
+		probe.PrintAll(le)
+		if ak, ok := le.EapTypeData.(*eap.EapAkaPrime); ok && ak != nil {
+			have := map[uint8]bool{}
+			for _, a := range e.Attrs {
+				have[a.Type] = true
+			}
+			for _, ty := range []uint8{model.AT_RAND, model.AT_AUTN, model.AT_RES, model.AT_MAC, model.AT_KDF, model.AT_KDF_INPUT, model.AT_CHECKCODE, 200} {
+				if _, gerr := ak.GetAttr(eap.EapAkaPrimeAttrType(ty)); gerr == nil && !have[ty] {
+					return fmt.Errorf("GetAttr(%d) succeeds although the packet does not carry that attribute", ty)
+				}
+			}
+		}
+		return nil
+	}); err != nil {
+		return probe.Fail("looking at the packet: %v", err)
 	}
 	var w []byte
 	if err := probe.Try(func() error { var x error; w, x = le.Marshal(); return x }); err != nil {
